@@ -60,6 +60,10 @@ func (r *Run) clientAssertVariant(cs *ClientSpec, v string) (map[string]interfac
 		return map[string]interface{}{"aud": "-"}, MustNot
 	case "aud_prefix":
 		return map[string]interface{}{"aud": TokenURL + "/x"}, MustNot
+	case "exp_just_past":
+		return map[string]interface{}{"exp": now.Add(-3 * time.Second).Unix()}, MustNot
+	case "expired_45s":
+		return map[string]interface{}{"exp": now.Add(-45 * time.Second).Unix()}, MustNot
 	case "expired":
 		return map[string]interface{}{"exp": now.Add(-10 * time.Second).Unix()}, MustNot
 	case "expired_long":
@@ -89,7 +93,7 @@ func (r *Run) clientAssertVariant(cs *ClientSpec, v string) (map[string]interfac
 }
 
 var clientAssertVariants = []string{"ok", "ok", "ok", "aud_array", "wrong_key", "other_clients_key", "alg_not_registered", "alg_ps256", "alg_none", "alg_hs256", "iss_wrong", "iss_missing",
-	"sub_wrong", "sub_missing", "sub_number", "aud_wrong", "aud_missing", "aud_prefix", "expired", "expired_long", "exp_soon", "exp_zero", "exp_missing", "exp_string", "exp_negative",
+	"sub_wrong", "sub_missing", "sub_number", "aud_wrong", "aud_missing", "aud_prefix", "expired", "exp_just_past", "expired_45s", "expired_long", "exp_soon", "exp_zero", "exp_missing", "exp_string", "exp_negative",
 	"jti_missing", "jti_empty", "jti_number", "kid_unknown", "kid_absent", "replay", "replay", "same_jti_new_signature"}
 
 func (r *Run) jtiTable() map[string]*jtiRec {
@@ -184,6 +188,9 @@ func (r *Run) opClientAssert(st Step) {
 	r.logf("client_assert %s variant=%s net=%s -> %d %s", cs.ID, v, netFault, res.Status, outcomeOf(res))
 	r.Shape = append(r.Shape, "cassert:"+v)
 	r.probe("assert-variant:client:" + v)
+	if strings.HasPrefix(v, "exp") {
+		r.probe("boundary:assertion:" + v)
+	}
 	if res.Crashed || r.anyFault() {
 		return
 	}
@@ -203,7 +210,7 @@ func (r *Run) opClientAssert(st Step) {
 	switch {
 	case exp == MustNot && tokens:
 		r.violate("C15", "invalid-client-assertion-accepted", v, "a private_key_jwt assertion (%s) authenticated client %s", v, cs.ID)
-		if v == "expired" || v == "expired_long" || v == "exp_zero" || v == "exp_negative" {
+		if v == "expired" || v == "expired_long" || v == "exp_zero" || v == "exp_negative" || v == "exp_just_past" || v == "expired_45s" {
 			r.violate("C07", "honoured-but-must-not", "client_assertion:"+v, "an expired client assertion (%s) was accepted", v)
 		}
 		r.violate("C10", "tokens-without-client-auth", "client_assertion:"+v, "a private_key_jwt assertion (%s) authenticated client %s", v, cs.ID)
@@ -242,6 +249,14 @@ func (r *Run) bearerVariant(b *BearerKeySpec, v string) (map[string]interface{},
 		return map[string]interface{}{"aud": []string{"https://as.sim/other"}}, MustNot, scope
 	case "aud_missing":
 		return map[string]interface{}{"aud": "-"}, MustNot, scope
+	case "exp_just_past":
+		return map[string]interface{}{"exp": now.Add(-3 * time.Second).Unix(), "iat": now.Add(-5 * time.Minute).Unix()}, MustNot, scope
+	case "exp_past_45s":
+		return map[string]interface{}{"exp": now.Add(-45 * time.Second).Unix(), "iat": now.Add(-5 * time.Minute).Unix()}, MustNot, scope
+	case "exp_soon":
+		return map[string]interface{}{"exp": now.Add(4 * time.Second).Unix()}, Must, scope
+	case "nbf_just_ahead":
+		return map[string]interface{}{"nbf": now.Add(30 * time.Second).Unix()}, MustNot, scope
 	case "exp_past":
 		return map[string]interface{}{"exp": now.Add(-10 * time.Second).Unix()}, MustNot, scope
 	case "exp_missing":
@@ -249,7 +264,7 @@ func (r *Run) bearerVariant(b *BearerKeySpec, v string) (map[string]interface{},
 	case "exp_too_far":
 		return map[string]interface{}{"exp": now.Add(maxDur + time.Hour).Unix()}, MustNot, scope
 	case "exp_within_max":
-		return map[string]interface{}{"exp": now.Add(maxDur - time.Hour).Unix()}, Must, scope
+		return map[string]interface{}{"exp": now.Add(maxDur / 2).Unix()}, Must, scope
 	case "nbf_future":
 		return map[string]interface{}{"nbf": now.Add(10 * time.Minute).Unix()}, MustNot, scope
 	case "nbf_past":
@@ -281,7 +296,7 @@ func (r *Run) bearerVariant(b *BearerKeySpec, v string) (map[string]interface{},
 	return nil, Unspec, scope
 }
 
-var bearerVariants = []string{"ok", "ok", "ok", "aud_array", "wrong_key", "unknown_iss", "unknown_sub", "iss_missing", "sub_missing", "aud_wrong", "aud_missing", "exp_past", "exp_missing",
+var bearerVariants = []string{"ok", "ok", "ok", "aud_array", "wrong_key", "unknown_iss", "unknown_sub", "iss_missing", "sub_missing", "aud_wrong", "aud_missing", "exp_past", "exp_just_past", "exp_past_45s", "exp_soon", "nbf_just_ahead", "exp_missing",
 	"exp_too_far", "exp_within_max", "nbf_future", "nbf_past", "iat_missing", "jti_missing", "scope_outside", "scope_wild_ok", "alg_none", "alg_hs256", "kid_unknown", "replay", "replay"}
 
 func (r *Run) opBearerAssert(st Step) {
@@ -319,6 +334,9 @@ func (r *Run) opBearerAssert(st Step) {
 	r.logf("bearer_assert %s variant=%s by %s -> %d %s", b.Issuer, v, cs.ID, res.Status, outcomeOf(res))
 	r.Shape = append(r.Shape, "bassert:"+v)
 	r.probe("assert-variant:bearer:" + v)
+	if strings.HasPrefix(v, "exp_") || strings.HasPrefix(v, "nbf_") {
+		r.probe("boundary:assertion:" + v)
+	}
 	if res.Crashed || r.anyFault() {
 		return
 	}
@@ -349,8 +367,8 @@ func (r *Run) opBearerAssert(st Step) {
 	switch {
 	case exp == MustNot && tokens:
 		r.violate("C15", "invalid-bearer-assertion-accepted", v, "a JWT-bearer assertion (%s) for %s/%s was accepted", v, b.Issuer, b.Subject)
-		if v == "exp_past" {
-			r.violate("C07", "honoured-but-must-not", "bearer_assertion", "an expired JWT-bearer assertion was accepted")
+		if v == "exp_past" || v == "exp_just_past" || v == "exp_past_45s" {
+			r.violate("C07", "honoured-but-must-not", "bearer_assertion:"+v, "an expired JWT-bearer assertion (%s) was accepted", v)
 		}
 		if v == "scope_outside" {
 			r.violate("C12", "scope-outside-registration", "jwt_bearer", "a JWT-bearer grant accepted scope %q, the key's scopes are %v", scope, b.Scopes)
